@@ -205,7 +205,7 @@ def generate(rng, tier="quick"):
     ops = []
     evals = []
     for _ in range(rng.randint(1, 40 if tier == "thorough" else 24)):
-        kind = rng.weighted([("eval", 10), ("reject", 5), ("repeat", 2), ("restat", 2), ("validate", 3), ("revalidate", 1.5), ("create", 1)])
+        kind = rng.weighted([("eval", 10), ("reject", 5), ("repeat", 2), ("restat", 2), ("validate", 3), ("revalidate", 1.5), ("create", 1.6)])
         if kind == "eval":
             ast = gen_ast(rng, rng.randint(0, 4))
             op = {"op": "eval", "ast": ast, "text": to_text(render(ast), rng.pick(("spaced", "tight", "mixed"))), "stats": gen_stats(rng)}
@@ -242,7 +242,7 @@ def generate(rng, tier="quick"):
                 c.pop("unchecked", None)
                 ops.append(c)
             else:
-                c = gen_create(rng, grids, empty_ok=rng.chance(0.3))
+                c = gen_create(rng, grids, empty_ok=rng.chance(0.45))
                 if c:
                     c["uid"] = len(ops)
                     ops.append(c)
